@@ -61,7 +61,7 @@ def run(ctx):
         ctx.guard(cluster_table, ctx, cfg, fs)
         ctx.guard(boundaries, ctx, cfg, fs)
         import wiring
-        ctx.guard(wiring.builders, ctx, cfg, fs, 'N.name-lists', r'^(short|long|params::NamedArg::(short|long)|params::ParseCommand::<P>::(short|long)|command|params::<impl info::OptionParser<T>>::command|params::ParseArgument::<T>::adjacent|params::build_argument|params::NamedArg::argument)$')
+        ctx.guard(wiring.builders, ctx, cfg, fs, 'N.name-lists', r'^(short|long|params::NamedArg::(short|long|help|env)|params::ParseCommand::<P>::(short|long|help|adjacent)|command|params::<impl info::OptionParser<T>>::command|params::ParseArgument::<T>::(adjacent|help)|params::ParseFlag::<T>::help|params::build_argument|params::build_flag_parser|params::NamedArg::(argument|switch|flag|req_flag))$')
 
 def registry(ctx, cfg, fs):
     c12.walker_rules(ctx, cfg, fs, 'R.registry', {'collect_shorts': c12.WALKERS['collect_shorts']})
